@@ -6,6 +6,7 @@
 package main
 
 import (
+	"encoding/hex"
 	"fmt"
 	"sort"
 	"strings"
@@ -60,7 +61,33 @@ type hist struct {
 	reqWhileBlocked map[string]bool // ... during the current (certain) blocked period: still required
 	lastChecked     map[string]int64
 
+	// diagnostics for replay files: node set of every committed state (rolled-back ones included), commits in order
+	nodes   map[string]map[string]struct{}
+	commits []commitRec
+
 	dead bool // a violation / fatal condition ended this history
+}
+
+type commitRec struct {
+	height uint64
+	root   string
+	parent string
+}
+
+// nodeHistory renders which commits created / dropped a node hash (diagnostics only)
+func (h *hist) nodeHistory(n string) []string {
+	var out []string
+	for _, cr := range h.commits {
+		_, in := h.nodes[cr.root][n]
+		_, inParent := h.nodes[cr.parent][n]
+		if in && !inParent {
+			out = append(out, fmt.Sprintf("created by commit h=%d root=%s", cr.height, cm.Short([]byte(cr.root))))
+		}
+		if !in && inParent {
+			out = append(out, fmt.Sprintf("dropped by commit h=%d root=%s", cr.height, cm.Short([]byte(cr.root))))
+		}
+	}
+	return out
 }
 
 func (h *hist) blocked() bool { return h.explicit > 0 || h.pendingHeld }
@@ -242,12 +269,67 @@ func (h *hist) checkGarbage(final bool) {
 	h.r.Eval(1)
 	h.r.Count("garbage_checks", 1)
 	if garbage > 0 {
-		h.fail("garbage-left", fmt.Sprintf("%d of %d DB nodes are reachable from no root whose prune has not been requested (pruning unblocked, buffer drained, no rollback while blocked)", garbage, total),
-			map[string]interface{}{"garbage": garbage, "db_nodes": total, "sample_hashes": sample, "final_check": final})
+		key := "garbage-left"
+		if h.leakExplainsAll(reach) {
+			key = garbageLeakShapeKey
+		}
+		hist := map[string][]string{}
+		for _, sh := range sample {
+			hist[sh] = h.nodeHistory(string(unhex(sh)))
+		}
+		h.fail(key, fmt.Sprintf("%d of %d DB nodes are reachable from no root whose prune has not been requested (pruning unblocked, buffer drained, no rollback while blocked)", garbage, total),
+			map[string]interface{}{"garbage": garbage, "db_nodes": total, "sample_hashes": sample, "sample_hash_history": hist, "final_check": final})
 	}
 }
 
+// garbageLeakShapeKey is the witness class of a leak this monitor found: inside ONE block the storage of an account
+// is changed (its cached data trie now carries the obsolete hashes), the account is removed (possible when the
+// changed data trie is empty or back at a committed root) and re-created with storage: saveDataTrie puts a fresh
+// data trie under the same address into the data tries holder, the replaced trie is never committed and its
+// obsolete hashes never reach the eviction waiting list.
+const garbageLeakShapeKey = "garbage shape=storage-changed+account-removed+re-created-with-storage-in-one-block"
+
+// leakExplainsAll tells whether every garbage node was last dropped, on the current chain, by a block with that shape
+func (h *hist) leakExplainsAll(reach map[string]struct{}) bool {
+	onChain := map[string]*cm.Block{}
+	for _, b := range h.w.Chain {
+		onChain[string(b.Root)] = b
+	}
+	all, any := true, false
+	h.env.Gate.Raw.RangeKeys(func(k, v []byte) bool {
+		if string(k) == string(cm.NumCheckpointsKey) {
+			return true
+		}
+		if _, ok := reach[string(k)]; ok {
+			return true
+		}
+		any = true
+		var dropper *cm.Block
+		for _, cr := range h.commits {
+			b := onChain[cr.root]
+			if b == nil {
+				continue
+			}
+			_, in := h.nodes[cr.root][string(k)]
+			_, inParent := h.nodes[cr.parent][string(k)]
+			if !in && inParent {
+				dropper = b
+			}
+		}
+		if dropper == nil || !dropper.LeakShape {
+			all = false
+		}
+		return true
+	})
+	return all && any
+}
+
 func (h *hist) op(s string) { h.ops = append(h.ops, s) }
+
+func unhex(s string) []byte {
+	b, _ := hex.DecodeString(s)
+	return b
+}
 
 func (h *hist) commit() {
 	parent := h.w.Head()
@@ -269,6 +351,16 @@ func (h *hist) commit() {
 		return
 	}
 	h.op(fmt.Sprintf("commit h=%d root=%s on %s [%s]", b.Height, cm.Short(b.Root), cm.Short(parent.Root), b.Desc))
+	h.recordNodes(b, string(parent.Root))
+}
+
+// recordNodes keeps the node set of a fresh commit (diagnostics; the oracle itself runs in checkLive)
+func (h *hist) recordNodes(b *cm.Block, parent string) {
+	reach := map[string]struct{}{}
+	if ce := cm.CheckRoot(h.env.Gate.Raw, b, reach); ce == nil {
+		h.nodes[string(b.Root)] = reach
+	}
+	h.commits = append(h.commits, commitRec{b.Height, string(b.Root), parent})
 }
 
 // finalize runs the finalization of the next block; snap = "", "snapshot" or "checkpoint" issues the real
@@ -347,6 +439,52 @@ func (h *hist) rollback() {
 	h.op(fmt.Sprintf("rollback head=%s to %s blocked=%v", cm.Short(head.Root), cm.Short(prev.Root), wasBlocked))
 }
 
+// runDirectedLeak replays, through the same oracles, the minimal witness of the garbage shape found by this monitor:
+// block 1 gives A2 one slot; block 2 deletes the slot, removes A2 and re-creates it with another slot; everything
+// is finalized with pruning never blocked; the old data-trie node of A2 must be gone afterwards.
+func runDirectedLeak(r *vk.Run, c *vk.Case) {
+	env, err := cm.NewEnv(cm.EnvConfig{MaxTrieLevelInMem: 5, EwlCache: 3, PruningBufferLen: 1000, QueueSize: 0, MaxSnapshots: 2})
+	if err != nil {
+		r.Inconclusive("environment construction failed: " + err.Error())
+		return
+	}
+	defer env.Close()
+	h := &hist{r: r, c: c, env: env, w: cm.NewWorld(env), profile: profNeverBlocked, events: map[string]bool{},
+		bufCap: 1000, stale: map[string]bool{}, requested: map[string]bool{},
+		reqWhileBlocked: map[string]bool{}, lastChecked: map[string]int64{}, nodes: map[string]map[string]struct{}{}}
+	env.Rec.OnCancel = h.onCancel
+	env.Rec.OnPrune = h.onPrune
+	scripts := [][]cm.ScriptOp{
+		{{Addr: 1, Key: "k0", Val: "v0"}},
+		{{Addr: 2, Key: "k1", Val: "v1"}},
+		{{Addr: 2, Key: "k1", Val: ""}, {Addr: 2, Remove: true}, {Addr: 2, Key: "k0", Val: "v0"}},
+		{{Addr: 1, Key: "k0", Val: "v1"}},
+	}
+	for i, sc := range scripts {
+		parent := ""
+		if len(h.w.Chain) > 0 {
+			parent = string(h.w.Head().Root)
+		}
+		b, errC := h.w.CommitScript(sc)
+		if errC != nil {
+			r.Inconclusive("directed leak witness: commit failed: " + errC.Error())
+			return
+		}
+		b.LeakShape = i == 2
+		h.op(fmt.Sprintf("commit h=%d root=%s [%s]", b.Height, cm.Short(b.Root), b.Desc))
+		h.recordNodes(b, parent)
+		h.checkLive(false)
+	}
+	for !h.dead && h.w.CanFinalize() {
+		h.finalize("")
+		h.checkLive(false)
+	}
+	r.Count("directed_leak_witness", 1)
+	if !h.dead {
+		h.checkGarbage(true)
+	}
+}
+
 func runHistory(r *vk.Run, c *vk.Case) {
 	rng := c.Rng
 	profile := c.Idx % 4
@@ -366,7 +504,7 @@ func runHistory(r *vk.Run, c *vk.Case) {
 	defer env.Close()
 	h := &hist{r: r, c: c, env: env, w: cm.NewWorld(env), profile: profile, events: map[string]bool{},
 		bufCap: int(cfg.PruningBufferLen), stale: map[string]bool{}, requested: map[string]bool{},
-		reqWhileBlocked: map[string]bool{}, lastChecked: map[string]int64{}}
+		reqWhileBlocked: map[string]bool{}, lastChecked: map[string]int64{}, nodes: map[string]map[string]struct{}{}}
 	env.Rec.OnCancel = h.onCancel
 	env.Rec.OnPrune = h.onPrune
 
@@ -376,6 +514,7 @@ func runHistory(r *vk.Run, c *vk.Case) {
 		return
 	}
 	h.op(fmt.Sprintf("commit h=0 root=%s [%s]", cm.Short(b0.Root), b0.Desc))
+	h.recordNodes(b0, "")
 	h.checkLive(false)
 
 	nOps := rng.Range(15, 60)
@@ -510,7 +649,6 @@ func runHistory(r *vk.Run, c *vk.Case) {
 }
 
 func main() {
-	cm.RaceExitGuard()
 	_ = logger.SetLogLevel("*:NONE")
 	r := vk.Start("C09")
 	r.Rule("each case is one chain history of 15-60 ops over 6 accounts + a counter account (unique block roots): commit (balance/code/storage write+delete, account removal/re-creation, in-block slot flip-flops; small key/value sets so node hashes recur across blocks), finalize the next block through the real updateStateStorage (pruning queue 0-3), roll back the head (RevertStateToBlock + PruneStateOnRollback), Enter/ExitPruningBufferingMode, real SnapshotState/SetStateCheckpoint of the new final root held at the first traversal read for 1-4 ops. Profiles by case index mod 4: never blocked / blocked but never rolled back while blocked / blocked with rollbacks (explicit) / blocked with rollbacks + real snapshots. A history is non-trivial when at least one prune was executed; distinct = distinct (queue, waiting-list cache, buffer, profile, set of pruning events) signatures.")
@@ -523,7 +661,13 @@ func main() {
 	)
 	r.MinShapes(20)
 	n := r.N(300, 10000)
-	r.Parallel(n, func(c *vk.Case) { runHistory(r, c) })
+	r.Parallel(n+1, func(c *vk.Case) {
+		if c.Idx == n {
+			runDirectedLeak(r, c) // one scripted case
+			return
+		}
+		runHistory(r, c)
+	})
 	if races := vk.CollectRaces(); len(races) > 0 {
 		r.Extra("race_reports", races)
 	}
